@@ -25,4 +25,35 @@ TEXT = {
  'C18': {'text': 'min_block_size formulas against the number of nodes insert() really produces (symbolic node size and count), counter deltas in '
                  'the C01/C04 steps, maxima as upper bounds.', 'note': NOTE},
 }
+TEXT.update({
+ 'C03': {'text': 'Exception model on the real code: for every throwing entry point wrapped so far (iteration_allocator, memory_stack, pool collection, adapters) '
+                 'a normal return is non-null and an exceptional return carries an out_of_memory / bad_allocation_size family exception whose real constructor '
+                 'called the registered handler exactly once; try_ functions never throw, never call the upstream hook, and leave the state unchanged when they '
+                 'return null; the upstream hook fails nondeterministically at every call.', 'note': NOTE},
+ 'C05': {'text': 'A recording upstream hook keeps a ledger (address, size, acquisition number) of every block; from arbitrary valid arena/stack/collection '
+                 'states the destructor, shrink_to_fit, unwind, move and growth steps are checked against it: every return matches a held block, with its size, '
+                 'is the newest outstanding block (reverse order) and happens once; cached blocks are reused before the upstream is asked.', 'note': NOTE},
+ 'C06': {'text': 'unwind(m) from an arbitrary valid stack state for an arbitrary earlier marker restores top(), capacity_left() and the block stacks exactly '
+                 '(dropped blocks cached, nothing returned upstream, older bytes untouched); a symbolic script top/allocate/allocate/unwind/replay yields the same '
+                 'addresses with the upstream forbidden; marker comparison operators are a total order (trichotomy, transitivity) over full 64-bit fields.', 'note': NOTE},
+ 'C07': {'text': 'iteration_allocator<N> for N = 1,2,3,5 (thorough 1..5): base case (constructor agrees with block_start for every symbolic block size, '
+                 'including size % N != 0) and inductive steps for allocate / try_allocate / next_iteration from states with every top symbolic.', 'note': NOTE},
+ 'C08': {'text': 'Ownership: iteration_allocator and pool collection try_deallocate accept exactly pointers inside their blocks (symbolic pointer anywhere in the heap); '
+                 'routing: fallback_allocator, nested fallback, fallback over aligned_allocator and binary_segregator over recording leaves whose ownership is '
+                 'decided by the harness: every release reaches the leaf that served the allocation with the same kind and parameters.', 'note': NOTE},
+ 'C09': {'text': 'Eleven wrapper compositions (direct / reference / type-erased storage, thread_safe, aligned, tracked, segregator, fallback nestings, depth 3) x '
+                 'throwing/composable x node/array with symbolic size, count, alignment and leaf behaviour: one downstream request per upstream request, '
+                 'enough bytes, alignment not smaller, identical tuple on release, tracker sees each success once; std_allocator, memory_resource_adapter and the '
+                 'deleters (incl. a 70016-byte derived type) likewise.', 'note': NOTE},
+ 'C13': {'text': 'Lock discipline, decided per forwarding member: the recording leaf asserts that the harness mutex is held on every entry (allocation, release, '
+                 'composable variants, max_* queries, lock() proxy) and the harness asserts it is released afterwards, also when the call threw; allocators '
+                 'without a mutex type take no lock. Mutual exclusion for any number of threads then follows from the lock argument (an argument, not a query). '
+                 'Instruction-level interleavings are not explored.', 'note': NOTE + ' std::mutex itself is trusted; interleavings are not enumerated.'},
+ 'C15': {'text': 'memory_stack: the leak counter is part of the symbolic pre-state; traits-level allocate/deallocate move it by exactly count*size; the destructor '
+                 'calls the installed leak handler exactly once with the exact net amount iff it is non-zero; a moved-from object reports nothing and the count '
+                 'moves with the object.', 'note': NOTE},
+ 'C10': {'text': 'Narrower than the statement: std_allocator equality (equal iff same referenced stateful allocator object; memory from one is released to the same '
+                 'leaf through an equal copy) and the node/array decision of std_allocator::allocate/deallocate for element types of size/alignment (1,1) (3,1) (24,8) (48,16). '
+                 'Real libstdc++ container code (rebalancing, rehash, list surgery in libstdc++.so) is outside the claim.', 'note': NOTE},
+})
 NOT_APPLICABLE = {}
